@@ -17,6 +17,7 @@ def run_script(desc, mode="proof", sizes=None, pinned=None, native=None, repo=No
     def path(c):
         I.contracts.clear()
         I.invariants.clear()
+        I.loop_matchers.clear()
         if hasattr(I, "trace"):
             I.trace.clear()
         S.inputs.clear()
